@@ -206,7 +206,9 @@ static pid_t process_fork(const int *except, size_t num_except)
     if (child_errno > 0) {
       // If the child writes to the error pipe and exits, we're certain the
       // child process exited on its own and we can report errors as usual.
-      r = waitpid(child, NULL, 0);
+      do {
+        r = waitpid(child, NULL, 0);
+      } while (r < 0 && errno == EINTR);
       ASSERT(r < 0 || r == child);
 
       r = r < 0 ? -errno : -child_errno;
@@ -471,7 +473,9 @@ int process_start(pid_t *process,
   ASSERT_UNUSED(r >= 0);
 
   if (child_errno > 0) {
-    r = waitpid(child, NULL, 0);
+    do {
+      r = waitpid(child, NULL, 0);
+    } while (r < 0 && errno == EINTR);
     r = r < 0 ? -errno : -child_errno;
     goto finish;
   }
